@@ -18,7 +18,7 @@ def node_of(ck, clsname):
     mix = P.cls("network.mixins", "NetworkMixin")
     nn.model.opaque[P.method(mix, "_write").qualname] = c16.quiet_write(nn)
     nn.model.opaque[P.method(mix, "_begin").qualname] = c07.make_summary(nn, Agg(ck), "_begin")
-    nn.model.loop_key = net.radio_loop_key(nn)
+    nn.model.loop_key = net.radio_loop_key(nn, trace_kinds=("summary",))
     return nn
 
 
@@ -229,13 +229,19 @@ def run(ck):
         "against the requested number) or with -2. R17.2: writer/reader agreement of the four formats: ID request 1 byte <-> message[0], address "
         "request '<H' <-> '<H', both replies '<h' <-> '<h', so -2 is representable end to end. R17.3: renew_address, the lookups and mesh send() "
         "end through their clock tests with None / -1 / False and never raise when nobody answers. R17.4: release_address and check_connection "
-        "constants. R17.5: no exception escapes the master on lookup frames (also C15).")
+        "constants. R17.5: no exception escapes the master on lookup frames (also C15). The master's allocator rules R16.1-R16.4 (candidates are "
+        "the relay's free children, exhaustive collision scan, lease under the requester's ID) are re-run here: they are the master-side half of "
+        "'a join yields an address no other node holds'.")
     ck.not_decided = ["that joins succeed, addresses are distinct across nodes and messages sent by ID arrive: multi-node schedules"]
     agg = Agg(ck)
     n1, req_fmt = lookups(ck, agg)
     n2 = master_side(ck, agg, req_fmt)
     n3 = misc(ck, agg)
+    # a join yields an address no other connected node holds only if the master's allocator scans its whole table for every candidate:
+    # the allocator rules of C16 (R16.1 candidates, R16.2 exhaustive scan, R16.3 lease under the requester's ID) are a necessary part of C17
+    n4 = c16.dhcp_rules(ck, agg, c16.master(ck))
     agg.flush()
+    ck.floor("R16.1", "allocator relay scenarios", n4, 7)
     ck.floor("R17.1", "lookup scenarios", n1, 16)
     ck.floor("R17.1", "master scenarios", n2, 2)
     ck.floor("R17.3", "blocking / release scenarios", n3, 10)
